@@ -859,7 +859,9 @@ fn do_to_dot<W: Write>(
                     let label = {
                         let mut buffer = String::new();
                         diagnostic_display_input(&mut buffer, input)?;
-                        buffer.replace('\"', "\\\"")
+                        // A backslash has to be escaped before the quotes are, or `\"` in the
+                        // text would end the DOT string early.
+                        buffer.replace('\\', "\\\\").replace('\"', "\\\"")
                     };
                     writeln!(
                         output,
